@@ -16,7 +16,12 @@ import (
 	"time"
 )
 
-const verifRoot = "/verif"
+var verifRoot = func() string {
+	if v := os.Getenv("VERIF_ROOT"); v != "" {
+		return v
+	}
+	return "/verif"
+}()
 
 // runOpts are the flags common to every per-property run.
 type runOpts struct {
